@@ -315,3 +315,110 @@ def ind_step(w, which="C04", start="outside", kinds="r"):
         conds.append(alg.or_(file_retracted, owed))
         conds.append(alg.implies(owed, lr.allowCombine is False))
     w.check(alg.and_(*conds), "invariant-re-established", desc)
+
+
+# =====================================================================================================================
+# Inductive step for C05, firmware-style retraction (G10/G11)
+#   class 0: no retraction recorded, file not retracted, V and P not retracted
+#   class 1: firmware retraction recorded, recovery not skipped, file retracted, V and P retracted
+#   class 2: firmware retraction recorded, recovery skipped (owed), file not retracted, V not retracted, P retracted
+IND_FW_ROLES = ["FRET", "FREC", "FRET1", "FREC1", "PRINT", "TRAVEL", "TRAVELX", "ZHOP", "G20", "G21"]
+
+
+def ind_step_fw(w, start="outside", kinds="r"):
+    pipe = pl.Pipe(w, False)
+    kind = "rect" if (kinds == "r" or (kinds == "rd" and w.choose(2, "rkind") == 0)) else "disc"
+    pipe.add_region(pl.fresh_region(w, kind, "r0"))
+    if start == "inside":
+        pipe.havoc_excluding()
+    else:
+        pipe.havoc_not_excluding()
+    V, P, st = pipe.V, pipe.P, pipe.state
+    cls = w.choose(3, "ind-class")
+    w.cover("class-%d-%s" % (cls, start))
+    RS = w.env.RetractionState
+    orig = ["G10", "G10 S1"][w.choose(2, "orig-g10")]
+    fw_words = {"G10": rs274.read(orig).words}
+    if cls == 0:
+        st.lastRetraction = None
+        fw_words = {}
+    else:
+        lr = RS(originalCommand=orig, firmwareRetract=True)
+        lr.recoverExcluded = (cls == 2)
+        lr.allowCombine = False if cls == 2 else w.flag("ind-allow-combine")
+        st.lastRetraction = lr
+    file_retracted = (cls == 1)
+    owed = (cls == 2)
+    V.fw_retracted = file_retracted
+    P.fw_retracted = (cls != 0)
+    if start != "inside":
+        P.e = V.e
+    role = IND_FW_ROLES[w.choose(len(IND_FW_ROLES), "role")]
+    w.cover("role-" + role)
+    if role in ("FRET", "FREC", "FRET1", "FREC1"):
+        if role.startswith("FRET") == file_retracted:
+            pl.skip(w, "unmatched cycle")
+        text = ("G10" if role.startswith("FRET") else "G11") + (" S1" if role.endswith("1") else "")
+        fw_words[text[:3]] = rs274.read(text).words
+    elif role == "PRINT":
+        if file_retracted:
+            pl.skip(w, "printing move while the file is retracted")
+        x, y, e = w.real("c0_X"), w.real("c0_Y"), w.real("c0_E")
+        text = "G1 X%s Y%s E%s" % (w.key(x), w.key(y), w.key(e))
+        w.assume(e * V.u > V.e)
+    elif role == "TRAVEL":
+        text = "G1 X%s Y%s" % (w.key(w.real("c0_X")), w.key(w.real("c0_Y")))
+    elif role == "TRAVELX":
+        text = "G0 X%s" % w.key(w.real("c0_X"))
+    elif role == "ZHOP":
+        text = "G1 Z%s" % w.key(w.real("c0_Z"))
+    else:
+        text = role
+    rec = pipe.begin(text)
+    if rec.is_move and not V.abs_xyz and "exit_while_xyz_relative" in w.excluded:
+        w.assume(alg.not_(alg.and_(rec.ep_before, alg.not_(rec.dest_inside))))
+    fw_v_before = rec.v_before["fw"]
+    rec = pipe.finish()
+    if rec.raised is not None:
+        w.fail("handler-raised", "%s raised %r" % (text, rec.raised))
+        return
+    desc = "inductive step (firmware style) from %s an episode, class %d, [%s] %r -> %r" % (start, cls, role, text, rec.emitted)
+    if role.startswith("FRET"):
+        file_retracted = True
+        owed = False
+    elif role.startswith("FREC"):
+        file_retracted = False
+        owed = alg.or_(owed, rec.ep_after)
+    elif role == "PRINT" and owed is not False:
+        owed = alg.and_(owed, alg.or_(rec.ep_before, rec.ep_after))
+    fwp = rec.p_before["fw"]
+    alternates = parity_ok = params_ok = True
+    for m in rec.motions:
+        if m.code == "G10" and m.kind.startswith("fw-retract"):
+            if fwp:
+                alternates = False
+            fwp = True
+        elif m.code == "G11":
+            if not fwp:
+                alternates = False
+            fwp = False
+        elif m.kind == "move" and m.has_xyz and m.has_e and fwp != fw_v_before:
+            parity_ok = False
+        if m.code in ("G10", "G11") and m.text != text:
+            params_ok = params_ok and (rs274.read(m.text).words in list(fw_words.values()))
+    if not w.check(alternates, "firmware-retract-never-doubled", desc):
+        return
+    if not w.check(parity_ok, "firmware-parity-equal-at-printing-move", desc):
+        return
+    if not w.check(params_ok, "generated-G10-G11-carry-original-parameters", desc):
+        return
+    lr = st.lastRetraction
+    conds = [pipe.tracked_equals_file(include_e=True), V.fw_retracted == file_retracted,
+             alg.iff(P.fw_retracted, alg.or_(file_retracted, owed)), alg.iff(rec.ep_after, rec.excluding_after)]
+    if lr is None:
+        conds.append(alg.and_(alg.not_(owed), not file_retracted))
+    else:
+        conds.append(lr.firmwareRetract is True)
+        conds.append(alg.iff(lr.recoverExcluded, owed))
+        conds.append(alg.or_(file_retracted, owed))
+    w.check(alg.and_(*conds), "invariant-re-established", desc)
